@@ -124,6 +124,8 @@ structure CState (ρ : Type) where
 /-- what the composite emits -/
 inductive COut (ω : Type) where
   | callback (browser : Nat) (cb : Callback)
+  /-- datagrams a timer block of the composite transmits (browser / lookup queries) -/
+  | sent (pkts : List Bytes)
   | other (o : ω)
   deriving Repr
 
